@@ -89,6 +89,10 @@ ScenC20 == {Run(<<d1>>, None, pre, app, via, FALSE) : d1 \in MdDocsOf(1), pre \i
                      d1 \in MdDocsOf(1), n2 \in {"pass", "failout"}, pre \in Shared("p1"), app \in Shared("a1"), via \in {"cli", "fm"}}
            \cup {Run(<<d1, Md(MkTests(2, <<"pass">>)), Md(MkTests(3, <<n3>>))>>, None, <<>>, <<>>, "cli", FALSE) :
                      d1 \in DocsOf(1), n3 \in {"pass", "failout"}}
+           \* a directory argument instead of single paths (documents of both formats, a nested directory, other files)
+           \cup {[Run(<<d1, d2>>, None, <<>>, <<>>, "cli", FALSE) EXCEPT !.dirarg = TRUE] : d1 \in DocsOf(1), d2 \in DocsOf(2)}
+           \cup {[Run(<<d1, Md(MkTests(2, <<"pass">>)), Cram(MkCram(3, <<n3>>))>>, None, <<>>, <<>>, "cli", FALSE) EXCEPT !.dirarg = TRUE] :
+                     d1 \in DocsOf(1), n3 \in {"pass", "failout"}}
            \* a document limit that is exceeded (per-document and per-test), alone and followed by another document
            \cup {Run(<<Doc("md", tfm, None, "no", <<Kind("pass", "d1t1"), Tc("d1t2", "exit", 0, 3, None, "none", "stdout", "none", t, FALSE, None)>>)>> \o rest,
                       None, <<>>, <<>>, "cli", FALSE) :
